@@ -780,19 +780,29 @@ def sym_sqrt(x):
             e.arg(1).numerator_as_long() == 2 and e.arg(1).denominator_as_long() == 1:
         t = e.arg(0)
         return mk(z3.If(t >= 0, t, -t))
-    # memoise per radicand so that equal radicands share one auxiliary
-    key = e.get_id()
+    # memoise per radicand: a new radicand re-uses the auxiliary of an earlier one when their difference normalises to 0 (sum
+    # of monomials), so that e.g. a*a + b*b - 2*a*b*c and b*b + a*a - 2*b*a*c share one auxiliary and the solver never has
+    # to derive y = y' from y*y = y'*y'
     memo = getattr(ENGINE, '_sqrt_memo', None)
     if memo is None or getattr(ENGINE, '_sqrt_memo_path', None) is not ENGINE.literals:
         memo = ENGINE._sqrt_memo = {}
         ENGINE._sqrt_memo_path = ENGINE.literals
+    key = e.get_id()
     if key in memo:
-        return memo[key]
+        return memo[key][1]
+    for k2, (r2, y2) in list(memo.items()):
+        try:
+            d = z3.simplify(e - r2, som=True)
+        except z3.Z3Exception:
+            continue
+        if z3.is_rational_value(d) and d.numerator_as_long() == 0:
+            memo[key] = (e, y2)
+            return y2
     y = z3.Real(f"sqrt!{next(ENGINE.fresh)}")
     xe = toz(x, True)
     ENGINE.add(y >= 0, y * y == xe)
     r = Sym(y)
-    memo[key] = r
+    memo[key] = (e, r)
     return r
 
 
